@@ -22,7 +22,7 @@ static void *kit_alloc_exact(size_t bytes) {
 }
 
 struct kit_type_obj {
-  sexp_tag_t tag; char markedp; unsigned int flags:5;
+  struct kit_f_hdr h;
   struct sexp_type_struct type __attribute__((aligned(8)));
 };
 _Static_assert(offsetof(struct kit_type_obj, type) == offsetof(struct sexp_struct, value), "type object layout");
@@ -36,7 +36,7 @@ sexp kit_ctx_full(void) {
   sexp types = kit_big_vector(SEXP_NUM_CORE_TYPES);
   for (int i = 0; i < SEXP_NUM_CORE_TYPES; i++) {
     /* typed objects (not word arrays) so that symex keeps the layout numbers constant */
-    kit_types[i].tag = SEXP_TYPE;
+    kit_types[i].h.tag = SEXP_TYPE;
     kit_types[i].type = _sexp_type_specs[i];
     kit_types[i].type.name = SEXP_FALSE;            /* names/printers only decorate messages */
     kit_types[i].type.print = SEXP_FALSE;
